@@ -1,4 +1,957 @@
 package main
 
+import (
+	"fmt"
+	"math/big"
+	"sort"
+
+	sdk "github.com/cosmos/cosmos-sdk/types"
+
+	auctionsV2types "github.com/comdex-official/comdex/x/auctionsV2/types"
+	lendtypes "github.com/comdex-official/comdex/x/lend/types"
+	liqtypes "github.com/comdex-official/comdex/x/liquidationsV2/types"
+)
+
+// ---------- plan ----------
+
+// LAsset is set-up data about one lendable asset and its cToken.
+type LAsset struct {
+	ID     uint64
+	Name   string
+	Denom  string
+	Dec    sdk.Int
+	OIdx   int // position among oracle-priced assets (index into band rates)
+	CID    uint64
+	CDenom string
+}
+
+// LPool is set-up data about one lending pool.
+type LPool struct {
+	ID     uint64
+	Module string
+	Assets []*LAsset // in AssetData order
+	Main   *LAsset   // transit type 1
+	T1     *LAsset   // transit type 2 (first bridge asset)
+	T2     *LAsset   // transit type 3 (second bridge asset)
+}
+
 // LendPlan is set-up data of the lend scenario.
-type LendPlan struct{}
+type LendPlan struct {
+	AppID   uint64
+	Assets  []*LAsset
+	Pools   []*LPool
+	Users   []int
+	Bidders []int
+	Keeper  int
+	Steer   int
+	Funder  int
+}
+
+const lendActors = 13
+
+func (p *LendPlan) assetByID(id uint64) *LAsset {
+	for _, a := range p.Assets {
+		if a.ID == id {
+			return a
+		}
+	}
+	return nil
+}
+
+func (p *LendPlan) assetByDenom(d string) *LAsset {
+	for _, a := range p.Assets {
+		if a.Denom == d {
+			return a
+		}
+	}
+	return nil
+}
+
+func (p *LendPlan) pool(id uint64) *LPool {
+	for _, x := range p.Pools {
+		if x.ID == id {
+			return x
+		}
+	}
+	return nil
+}
+
+// ---------- configuration ----------
+
+func drawLendConfig(r *Rng, cfg *Config) {
+	k := cfg.Knobs
+	k["n_users"] = r.Range(4, 8)
+	k["twa_batch"] = []int64{1, 1, 2, 3}[r.Intn(4)]
+	k["accepted_diff"] = []int64{20, 40, 100}[r.Intn(3)]
+	k["path_mode"] = []int64{pathFlat, pathWalk, pathCrash, pathCrash, pathSaw, pathSaw, pathSpike}[r.Intn(7)]
+	k["vol"] = r.Range(2, 25)
+	k["pkt_fault"] = []int64{0, 0, 0, 30, 100}[r.Intn(5)]
+	k["oog"] = []int64{0, 0, 0, 20}[r.Intn(4)]
+	k["gap_profile"] = []int64{0, 1, 1, 2, 2, 3}[r.Intn(6)]
+	k["extra_p1"] = int64(r.Intn(2))
+	k["extra_p2"] = int64(r.Intn(2))
+	k["dec_main1"] = []int64{6, 6, 8}[r.Intn(3)]
+	k["dec_main2"] = []int64{6, 6, 8}[r.Intn(3)]
+	k["dec_t1"] = []int64{6, 6, 8}[r.Intn(3)]
+	k["dec_t2"] = []int64{6, 6, 6, 8}[r.Intn(4)]
+	k["filler_apps"] = r.Range(0, 2)
+	k["filler_asset"] = int64(r.Intn(2))
+	k["liq_v2"] = 1
+	if r.Chance(1, 10) {
+		k["liq_v2"] = 0
+	}
+	k["liq_batch"] = []int64{1, 2, 3, 5, 200, 200}[r.Intn(6)]
+	k["dutch_on"] = 1
+	if r.Chance(1, 12) {
+		k["dutch_on"] = 0
+	}
+	k["english_on"] = 1
+	if r.Chance(1, 4) {
+		k["english_on"] = 0
+	}
+	k["auction_secs"] = []int64{30, 120, 600, 3600, 7200}[r.Intn(5)]
+	k["keeper_incentive"] = int64(r.Intn(3))
+	k["min_usd_left"] = []int64{0, 100000, 1000000}[r.Intn(3)]
+	k["emode"] = []int64{0, 0, 1, 2, 3}[r.Intn(5)]
+	k["stable_mask"] = int64(r.Intn(16))
+	k["isolated"] = 0
+	if r.Chance(1, 8) {
+		k["isolated"] = 1
+	}
+	k["base_zero"] = 0
+	if r.Chance(1, 12) {
+		k["base_zero"] = 1
+	}
+	k["reserve_funded"] = 1
+	if r.Chance(1, 10) {
+		k["reserve_funded"] = 0
+	}
+	k["app_reserve"] = int64(r.Intn(3)) // 0 none, 1 small, 2 ample
+	k["small_cap"] = 0
+	if r.Chance(1, 6) {
+		k["small_cap"] = 1
+	}
+}
+
+func lendRateChoice(r *Rng, xs ...string) sdk.Dec { return decStr(xs[r.Intn(len(xs))]) }
+
+// ---------- set-up (block 1, keeper entry points) ----------
+
+func setupLend(w *World) {
+	cfg := &w.Cfg
+	r := NewRng(MixSeed(cfg.Seed, "setup", 0))
+	p := &LendPlan{}
+	w.Lend = p
+	ctx := w.Ctx()
+	lk := w.App.LendKeeper
+
+	fillers := [][2]string{{"cswap", "cswap"}, {"harbor", "hbr"}}
+	for i := 0; i < int(cfg.K("filler_apps")); i++ {
+		w.addApp(fillers[i][0], fillers[i][1])
+	}
+	p.AppID = w.addApp("commodo", "cmdo")
+
+	oidx := 0
+	mk := func(name, denom string, dec int) *LAsset {
+		a := &LAsset{Name: name, Denom: denom, Dec: pow10(dec), OIdx: oidx}
+		a.ID = w.addAsset(name, denom, a.Dec, true, false)
+		oidx++
+		p.Assets = append(p.Assets, a)
+		return a
+	}
+	if cfg.KB("filler_asset") {
+		w.addAsset("FILLER", "ufiller", pow10(6), false, false)
+	}
+	main1 := mk("CMDX", "ulcmdx", int(cfg.K("dec_main1")))
+	t1 := mk("ATOM", "uatom", int(cfg.K("dec_t1")))
+	t2 := mk("CMST", "ulcmst", int(cfg.K("dec_t2")))
+	main2 := mk("OSMO", "uosmo", int(cfg.K("dec_main2")))
+	var extra1, extra2 *LAsset
+	if cfg.KB("extra_p1") {
+		extra1 = mk("AKT", "uakt", 6)
+	}
+	if cfg.KB("extra_p2") {
+		extra2 = mk("JUNO", "ujuno", 6)
+	}
+	for _, a := range p.Assets {
+		a.CDenom = "uc" + a.Denom[1:]
+		a.CID = w.addAsset("C"+a.Name, a.CDenom, a.Dec, false, false)
+	}
+
+	// interest-rate and risk parameters per asset, drawn per run
+	type rp struct {
+		uopt, base, s1, s2, sbase, ss1, ss2, ltv, thr, pen, bonus, rf sdk.Dec
+		stable                                                      bool
+	}
+	params := map[uint64]rp{}
+	for i, a := range p.Assets {
+		x := rp{
+			uopt:  lendRateChoice(r, "0.5", "0.65", "0.8", "0.9"),
+			base:  lendRateChoice(r, "0.002", "0.002", "0.02", "0.1"),
+			s1:    lendRateChoice(r, "0.04", "0.07", "0.1", "0.5"),
+			s2:    lendRateChoice(r, "0.6", "1.25", "3", "10"),
+			sbase: lendRateChoice(r, "0.01", "0.04", "0.2"),
+			ss1:   lendRateChoice(r, "0.04", "0.1"),
+			ss2:   lendRateChoice(r, "0.6", "2"),
+			pen:   lendRateChoice(r, "0.025", "0.05", "0.1"),
+			bonus: lendRateChoice(r, "0", "0.025", "0.05"),
+			rf:    lendRateChoice(r, "0.1", "0.2", "0.5"),
+		}
+		if cfg.KB("base_zero") && i%2 == 0 {
+			x.base = sdk.ZeroDec()
+		}
+		ltvPct := r.Range(40, 80)
+		x.ltv = sdk.NewDecWithPrec(ltvPct, 2)
+		x.thr = sdk.NewDecWithPrec(ltvPct+r.Range(1, 10), 2)
+		x.stable = cfg.K("stable_mask")&(1<<uint(i%4)) != 0
+		params[a.ID] = x
+	}
+	capOf := func(a *LAsset) sdk.Dec {
+		if cfg.KB("small_cap") && r.Chance(1, 3) {
+			return sdk.NewDec(r.Range(50_000, 5_000_000) * 1_000_000) // $50k .. $5m in micro-dollars
+		}
+		return sdk.NewDec(5_000_000_000_000_000_000)
+	}
+	ratesOf := func(a *LAsset) lendtypes.AssetRatesParams {
+		x := params[a.ID]
+		return lendtypes.AssetRatesParams{AssetID: a.ID, UOptimal: x.uopt, Base: x.base, Slope1: x.s1, Slope2: x.s2, EnableStableBorrow: x.stable,
+			StableBase: x.sbase, StableSlope1: x.ss1, StableSlope2: x.ss2, Ltv: x.ltv, LiquidationThreshold: x.thr, LiquidationPenalty: x.pen,
+			LiquidationBonus: x.bonus, ReserveFactor: x.rf, CAssetID: a.CID}
+	}
+	for _, a := range []*LAsset{t1, t2, extra1, extra2} {
+		if a == nil {
+			continue
+		}
+		if err := lk.AddAssetRatesParams(ctx, ratesOf(a)); err != nil {
+			panic(err)
+		}
+	}
+	mkPool := func(module, cname string, main, extra *LAsset) *LPool {
+		pool := &LPool{Module: module, Main: main, T1: t1, T2: t2}
+		as := []*LAsset{main, t1, t2}
+		if extra != nil {
+			as = append(as, extra)
+		}
+		// vary the order of the asset data
+		for i := len(as) - 1; i > 0; i-- {
+			j := r.Intn(i + 1)
+			as[i], as[j] = as[j], as[i]
+		}
+		var data []*lendtypes.AssetDataPoolMapping
+		for _, a := range as {
+			tt := uint64(0)
+			switch a {
+			case main:
+				tt = 1
+			case t1:
+				tt = 2
+			case t2:
+				tt = 3
+			}
+			data = append(data, &lendtypes.AssetDataPoolMapping{AssetID: a.ID, AssetTransitType: tt, SupplyCap: capOf(a)})
+		}
+		pool.Assets = as
+		x := ratesOf(main)
+		err := lk.AddAssetRatesPoolPairs(ctx, lendtypes.AssetRatesPoolPairs{AssetID: main.ID, UOptimal: x.UOptimal, Base: x.Base, Slope1: x.Slope1, Slope2: x.Slope2,
+			EnableStableBorrow: x.EnableStableBorrow, StableBase: x.StableBase, StableSlope1: x.StableSlope1, StableSlope2: x.StableSlope2, Ltv: x.Ltv,
+			LiquidationThreshold: x.LiquidationThreshold, LiquidationPenalty: x.LiquidationPenalty, LiquidationBonus: x.LiquidationBonus, ReserveFactor: x.ReserveFactor,
+			CAssetID: main.CID, ModuleName: module, CPoolName: cname, AssetData: data, MinUsdValueLeft: uint64(r.Range(0, 1000000)),
+			IsIsolated: cfg.KB("isolated") && main == main1})
+		if err != nil {
+			panic(fmt.Sprintf("add pool %s: %v", module, err))
+		}
+		pool.ID = lk.GetPoolID(ctx)
+		p.Pools = append(p.Pools, pool)
+		return pool
+	}
+	mkPool(lendtypes.ModuleAcc1, "CMDX-ATOM-CMST", main1, extra1)
+	mkPool(lendtypes.ModuleAcc3, "OSMO-ATOM-CMST", main2, extra2)
+
+	// e-mode on some pairs (higher LTV / threshold for the pair's collateral asset)
+	if n := int(cfg.K("emode")); n > 0 {
+		pairs := lk.GetLendPairs(ctx)
+		var em []lendtypes.EModePairs
+		seen := map[uint64]bool{}
+		for i := 0; i < n && len(pairs) > 0; i++ {
+			pr := pairs[r.Intn(len(pairs))]
+			if seen[pr.AssetIn] {
+				continue
+			}
+			seen[pr.AssetIn] = true
+			base := params[pr.AssetIn]
+			eltv := base.thr.Add(sdk.NewDecWithPrec(r.Range(1, 5), 2))
+			ethr := eltv.Add(sdk.NewDecWithPrec(r.Range(1, 4), 2))
+			em = append(em, lendtypes.EModePairs{PairID: pr.Id, ELtv: eltv, ELiquidationThreshold: ethr, ELiquidationPenalty: lendRateChoice(r, "0.01", "0.02", "0.05")})
+		}
+		if err := lk.AddEModePairs(ctx, lendtypes.EModePairsForProposal{EModePairs: em}); err != nil {
+			panic(err)
+		}
+	}
+
+	// oracle
+	w.SetupBand(uint64(cfg.K("twa_batch")), cfg.K("accepted_diff"))
+	w.Band.Prices = make([]uint64, oidx)
+	for _, a := range p.Assets {
+		if a.Name == "CMST" {
+			w.Band.Prices[a.OIdx] = uint64(r.Range(950000, 1050000))
+		} else {
+			w.Band.Prices[a.OIdx] = uint64(r.Range(50000, 50000000)) // $0.05 .. $50
+		}
+	}
+
+	// liquidation V2 + auctions V2 for the lend app
+	w.App.NewliqKeeper.SetParams(ctx, liqtypes.NewParams(uint64(cfg.K("liq_batch"))))
+	w.App.NewaucKeeper.SetAuctionParams(ctx, auctionsV2types.AuctionParams{
+		AuctionDurationSeconds: uint64(cfg.K("auction_secs")), Step: decStr("0.1"),
+		WithdrawalFee: sdk.ZeroDec(), ClosingFee: sdk.ZeroDec(),
+		MinUsdValueLeft: uint64(cfg.K("min_usd_left")), BidFactor: decStr("0.01"),
+		LiquidationPenalty: decStr("0.1"), AuctionBonus: sdk.ZeroDec(),
+	})
+	if cfg.K("liq_v2") != 0 {
+		prem := []string{"1.05", "1.1", "1.2", "1.3"}[r.Intn(4)]
+		disc := []string{"0.5", "0.7", "0.8", "0.9"}[r.Intn(4)]
+		inc := []string{"0", "0.1", "0.5"}[cfg.K("keeper_incentive")]
+		wl := liqtypes.LiquidationWhiteListing{
+			AppId: p.AppID, Initiator: true, IsDutchActivated: cfg.KB("dutch_on"),
+			DutchAuctionParam:   &liqtypes.DutchAuctionParam{Premium: decStr(prem), Discount: decStr(disc), DecrementFactor: sdk.NewInt(1)},
+			IsEnglishActivated:  cfg.KB("english_on"),
+			EnglishAuctionParam: &liqtypes.EnglishAuctionParam{DecrementFactor: sdk.NewInt(1)},
+			KeeeperIncentive:    decStr(inc),
+		}
+		if err := w.App.NewliqKeeper.WhitelistLiquidation(ctx, wl); err != nil {
+			panic(err)
+		}
+	}
+
+	// actors
+	nUsers := int(cfg.K("n_users"))
+	for i := 0; i < nUsers; i++ {
+		p.Users = append(p.Users, i)
+	}
+	p.Bidders = []int{nUsers, nUsers + 1}
+	p.Keeper = nUsers + 2
+	p.Steer = nUsers + 3
+	p.Funder = nUsers + 4
+	for i := 0; i <= p.Funder; i++ {
+		var coins sdk.Coins
+		for _, a := range p.Assets {
+			n := r.Range(1000, 1000000)
+			if i >= nUsers {
+				n = 200_000_000
+			}
+			coins = coins.Add(sdk.NewCoin(a.Denom, a.Dec.MulRaw(n)))
+		}
+		w.Fund(w.Actors[i].Addr, coins)
+	}
+	w.touchModuleAccounts()
+	t := newLendLiqTracker()
+	w.X["lend.liq"] = t
+	w.OnBlock = append(w.OnBlock, func(w *World) { t.observe(w, false) })
+}
+
+// tokensForUSD returns the amount of asset worth usd dollars at the generator-side start price.
+func (w *World) lendTokensForUSD(a *LAsset, usd int64) sdk.Int {
+	price := w.Band.Prices[a.OIdx] // micro-dollars per token
+	if price == 0 {
+		price = 1
+	}
+	n := new(big.Int).Mul(big.NewInt(usd), big.NewInt(1_000_000))
+	n.Mul(n, a.Dec.BigInt())
+	n.Quo(n, new(big.Int).SetUint64(price))
+	return sdk.NewIntFromBigInt(n)
+}
+
+// seedLend runs after the oracle is warm (still set-up, unrecorded, deterministic): initial liquidity, reserves.
+func seedLend(w *World) {
+	if w.Panicked != "" {
+		return
+	}
+	p := w.Lend
+	cfg := &w.Cfg
+	r := NewRng(MixSeed(cfg.Seed, "seed", 0))
+	ctx := w.Ctx()
+	lk := w.App.LendKeeper
+	funder := w.Actors[p.Funder]
+	steer := w.Actors[p.Steer]
+	for _, pool := range p.Pools {
+		for _, a := range pool.Assets {
+			amt := w.lendTokensForUSD(a, r.Range(5_000, 80_000))
+			// errors (supply cap in small-cap runs, inactive price) leave the pool thinner; that is a configuration, not a failure
+			_ = lk.LendAsset(ctx, funder.Bech(), a.ID, sdk.NewCoin(a.Denom, amt), pool.ID, p.AppID)
+		}
+		// the utilisation-steering actor holds a large collateral position in the second bridge asset of every pool
+		_ = lk.LendAsset(ctx, steer.Bech(), pool.T2.ID, sdk.NewCoin(pool.T2.Denom, w.lendTokensForUSD(pool.T2, r.Range(300_000, 900_000))), pool.ID, p.AppID)
+	}
+	if cfg.KB("reserve_funded") {
+		for _, a := range p.Assets {
+			_ = lk.FundReserveAcc(ctx, a.ID, funder.Bech(), sdk.NewCoin(a.Denom, w.lendTokensForUSD(a, r.Range(2_000, 20_000))))
+		}
+	}
+	if k := cfg.K("app_reserve"); k > 0 {
+		for _, a := range p.Assets {
+			usd := r.Range(1, 50)
+			if k == 2 {
+				usd = r.Range(5_000, 50_000)
+			}
+			_ = w.App.NewliqKeeper.MsgAppReserveFundsFn(ctx, funder.Bech(), p.AppID, a.ID, sdk.NewCoin(a.Denom, w.lendTokensForUSD(a, usd)))
+		}
+	}
+	if t, ok := w.X["lend.liq"].(*lendLiqTracker); ok {
+		t.snapshot(w)
+	}
+}
+
+// ---------- state readers used by generators ----------
+
+func (w *World) lendUser(r *Rng) *Actor { return w.Actors[w.Lend.Users[r.Intn(len(w.Lend.Users))]] }
+
+func (w *World) userLends(a *Actor) []lendtypes.LendAsset {
+	ctx := w.Ctx()
+	var out []lendtypes.LendAsset
+	for _, m := range w.App.LendKeeper.GetUserTotalMappingData(ctx, a.Bech()) {
+		if l, ok := w.App.LendKeeper.GetLend(ctx, m.LendId); ok {
+			out = append(out, l)
+		}
+	}
+	sort.Slice(out, func(i, j int) bool { return out[i].ID < out[j].ID })
+	return out
+}
+
+func (w *World) userBorrows(a *Actor) []lendtypes.BorrowAsset {
+	ctx := w.Ctx()
+	var out []lendtypes.BorrowAsset
+	for _, m := range w.App.LendKeeper.GetUserTotalMappingData(ctx, a.Bech()) {
+		for _, id := range m.BorrowId {
+			if b, ok := w.App.LendKeeper.GetBorrow(ctx, id); ok {
+				out = append(out, b)
+			}
+		}
+	}
+	sort.Slice(out, func(i, j int) bool { return out[i].ID < out[j].ID })
+	return out
+}
+
+// lendPrice returns the active TWA of an asset (micro-dollars per whole token).
+func (w *World) lendPrice(id uint64) (uint64, bool) {
+	twa, found := w.App.MarketKeeper.GetTwa(w.Ctx(), id)
+	if found && twa.IsPriceActive && twa.Twa > 0 {
+		return twa.Twa, true
+	}
+	return 0, false
+}
+
+// lendValue = amt * price / decimals as an exact rational (micro-dollars).
+func (w *World) lendValue(a *LAsset, amt sdk.Int) (*big.Rat, bool) {
+	p, ok := w.lendPrice(a.ID)
+	if !ok {
+		return nil, false
+	}
+	return new(big.Rat).SetFrac(new(big.Int).Mul(amt.BigInt(), new(big.Int).SetUint64(p)), a.Dec.BigInt()), true
+}
+
+func decRat(d sdk.Dec) *big.Rat { return new(big.Rat).SetFrac(d.BigInt(), oneE18) }
+
+// lendMaxLoan: largest loan of pair.AssetOut that collateral amtIn of the pair's AssetIn supports at the LTV the borrow path applies
+// (generator-side estimate; cross-pool uses the product with the first bridge asset's LTV).
+func (w *World) lendMaxLoan(pair lendtypes.Extended_Pair, amtIn sdk.Int) (sdk.Int, bool) {
+	p := w.Lend
+	in, out := p.assetByID(pair.AssetIn), p.assetByID(pair.AssetOut)
+	if in == nil || out == nil {
+		return sdk.ZeroInt(), false
+	}
+	rs, ok := w.App.LendKeeper.GetAssetRatesParams(w.Ctx(), pair.AssetIn)
+	if !ok {
+		return sdk.ZeroInt(), false
+	}
+	ltv := rs.Ltv
+	if pair.IsEModeEnabled {
+		ltv = rs.ELtv
+	}
+	vin, ok1 := w.lendValue(in, amtIn)
+	pout, ok2 := w.lendPrice(out.ID)
+	if !ok1 || !ok2 {
+		return sdk.ZeroInt(), false
+	}
+	v := new(big.Rat).Mul(vin, decRat(ltv))
+	if pair.IsInterPool {
+		for _, pool := range p.Pools {
+			if pool.Main.ID == pair.AssetIn {
+				if trs, ok := w.App.LendKeeper.GetAssetRatesParams(w.Ctx(), pool.T1.ID); ok {
+					v.Mul(v, decRat(trs.Ltv))
+				}
+			}
+		}
+	}
+	// loan = v * decOut / pout
+	v.Mul(v, new(big.Rat).SetFrac(out.Dec.BigInt(), new(big.Int).SetUint64(pout)))
+	q := new(big.Int).Quo(v.Num(), v.Denom())
+	return sdk.NewIntFromBigInt(q), true
+}
+
+// minLoan: smallest loan worth one dollar.
+func (w *World) lendMinLoan(out *LAsset) sdk.Int {
+	pout, ok := w.lendPrice(out.ID)
+	if !ok {
+		return sdk.OneInt()
+	}
+	n := new(big.Int).Mul(big.NewInt(1_000_000), out.Dec.BigInt())
+	n.Quo(n, new(big.Int).SetUint64(pout))
+	return sdk.NewIntFromBigInt(n).AddRaw(1)
+}
+
+func (w *World) pairsFor(l lendtypes.LendAsset) []lendtypes.Extended_Pair {
+	ctx := w.Ctx()
+	m, ok := w.App.LendKeeper.GetAssetToPair(ctx, l.AssetID, l.PoolID)
+	if !ok {
+		return nil
+	}
+	var out []lendtypes.Extended_Pair
+	for _, id := range m.PairID {
+		if pr, ok := w.App.LendKeeper.GetLendPair(ctx, id); ok {
+			out = append(out, pr)
+		}
+	}
+	return out
+}
+
+func (w *World) borrowDebt(b lendtypes.BorrowAsset) sdk.Int {
+	return b.AmountOut.Amount.Add(b.InterestAccumulated.TruncateInt())
+}
+
+// ---------- generators ----------
+
+func lendGens() []OpGen {
+	pickLend := func(w *World, r *Rng, a *Actor) (lendtypes.LendAsset, bool) {
+		ls := w.userLends(a)
+		if len(ls) == 0 {
+			return lendtypes.LendAsset{}, false
+		}
+		return ls[r.Intn(len(ls))], true
+	}
+	pickBorrow := func(w *World, r *Rng, a *Actor) (lendtypes.BorrowAsset, bool) {
+		bs := w.userBorrows(a)
+		if len(bs) == 0 {
+			return lendtypes.BorrowAsset{}, false
+		}
+		return bs[r.Intn(len(bs))], true
+	}
+	// pick a user that has what the op needs (a few tries), so that most generated txs are applicable
+	withLend := func(w *World, r *Rng) (*Actor, lendtypes.LendAsset, bool) {
+		for i := 0; i < 4; i++ {
+			a := w.lendUser(r)
+			if l, ok := pickLend(w, r, a); ok {
+				return a, l, true
+			}
+		}
+		return nil, lendtypes.LendAsset{}, false
+	}
+	withBorrow := func(w *World, r *Rng) (*Actor, lendtypes.BorrowAsset, bool) {
+		for i := 0; i < 4; i++ {
+			a := w.lendUser(r)
+			if b, ok := pickBorrow(w, r, a); ok {
+				return a, b, true
+			}
+		}
+		return nil, lendtypes.BorrowAsset{}, false
+	}
+	loanFor := func(w *World, r *Rng, pair lendtypes.Extended_Pair, amtIn sdk.Int) sdk.Int {
+		out := w.Lend.assetByID(pair.AssetOut)
+		max, ok := w.lendMaxLoan(pair, amtIn)
+		if !ok {
+			return w.lendMinLoan(out)
+		}
+		switch r.Intn(6) {
+		case 0:
+			return posInt(perturb(r, max)) // LTV boundary
+		case 1:
+			return w.lendMinLoan(out).AddRaw(r.Range(-2, 2)) // one-dollar floor
+		case 2:
+			return posInt(max.MulRaw(r.Range(90, 99)).QuoRaw(100)) // close to the limit: liquidatable after a small move
+		default:
+			return posInt(max.MulRaw(r.Range(20, 95)).QuoRaw(100))
+		}
+	}
+	return []OpGen{
+		{"lend.lend", 12, func(w *World, r *Rng) *Event {
+			a := w.lendUser(r)
+			pool := w.Lend.Pools[r.Intn(len(w.Lend.Pools))]
+			as := pool.Assets[r.Intn(len(pool.Assets))]
+			bal := w.Bal(a.Addr, as.Denom)
+			if !bal.IsPositive() {
+				return nil
+			}
+			amt := bal.MulRaw(r.Range(1, 40)).QuoRaw(100)
+			if r.Chance(1, 12) {
+				amt = sdk.NewInt(r.Range(1, 1000))
+			}
+			app := w.Lend.AppID
+			if r.Chance(1, 25) {
+				app = uint64(r.Range(1, 4))
+			}
+			return w.TxEvent("lend.lend", a, &lendtypes.MsgLend{Lender: a.Bech(), AssetId: as.ID, Amount: sdk.NewCoin(as.Denom, posInt(amt)), PoolId: pool.ID, AppId: app})
+		}},
+		{"lend.deposit", 5, func(w *World, r *Rng) *Event {
+			a, l, ok := withLend(w, r)
+			if !ok {
+				return nil
+			}
+			bal := w.Bal(a.Addr, l.AmountIn.Denom)
+			if !bal.IsPositive() {
+				return nil
+			}
+			amt := bal.MulRaw(r.Range(1, 30)).QuoRaw(100)
+			if r.Chance(1, 8) {
+				amt = sdk.OneInt()
+			}
+			return w.TxEvent("lend.deposit", a, &lendtypes.MsgDeposit{Lender: a.Bech(), LendId: l.ID, Amount: sdk.NewCoin(l.AmountIn.Denom, posInt(amt))})
+		}},
+		{"lend.withdraw", 9, func(w *World, r *Rng) *Event {
+			a, l, ok := withLend(w, r)
+			if !ok {
+				return nil
+			}
+			var amt sdk.Int
+			switch r.Intn(6) {
+			case 0:
+				amt = l.AvailableToBorrow // closes when nothing is pledged
+			case 1:
+				amt = l.AvailableToBorrow.AddRaw(r.Range(-2, 2))
+			case 2:
+				amt = l.AmountIn.Amount.AddRaw(r.Range(-1, 1)) // everything, including what is pledged
+			case 3:
+				amt = l.AvailableToBorrow.MulRaw(r.Range(101, 200)).QuoRaw(100)
+			default:
+				amt = l.AvailableToBorrow.MulRaw(r.Range(1, 90)).QuoRaw(100)
+			}
+			return w.TxEvent("lend.withdraw", a, &lendtypes.MsgWithdraw{Lender: a.Bech(), LendId: l.ID, Amount: sdk.NewCoin(l.AmountIn.Denom, posInt(amt))})
+		}},
+		{"lend.close", 3, func(w *World, r *Rng) *Event {
+			a, l, ok := withLend(w, r)
+			if !ok {
+				return nil
+			}
+			return w.TxEvent("lend.close", a, &lendtypes.MsgCloseLend{Lender: a.Bech(), LendId: l.ID})
+		}},
+		{"lend.borrow", 16, func(w *World, r *Rng) *Event {
+			a, l, ok := withLend(w, r)
+			if !ok || !l.AvailableToBorrow.IsPositive() {
+				return nil
+			}
+			pairs := w.pairsFor(l)
+			if len(pairs) == 0 {
+				return nil
+			}
+			pair := pairs[r.Intn(len(pairs))]
+			if r.Chance(1, 3) { // prefer cross-pool pairs now and then (they are a minority of the list)
+				for _, x := range pairs {
+					if x.IsInterPool {
+						pair = x
+					}
+				}
+			}
+			in, out := w.Lend.assetByID(pair.AssetIn), w.Lend.assetByID(pair.AssetOut)
+			if in == nil || out == nil {
+				return nil
+			}
+			amtIn := l.AvailableToBorrow.MulRaw(r.Range(5, 100)).QuoRaw(100)
+			if r.Chance(1, 10) {
+				amtIn = l.AvailableToBorrow.AddRaw(r.Range(-1, 1))
+			}
+			amtIn = posInt(amtIn)
+			loan := loanFor(w, r, pair, amtIn)
+			rs, _ := w.App.LendKeeper.GetAssetRatesParams(w.Ctx(), pair.AssetIn)
+			stable := rs.EnableStableBorrow && r.Chance(1, 2)
+			if r.Chance(1, 20) {
+				stable = !stable
+			}
+			return w.TxEvent("lend.borrow", a, &lendtypes.MsgBorrow{Borrower: a.Bech(), LendId: l.ID, PairId: pair.Id, IsStableBorrow: stable,
+				AmountIn: sdk.NewCoin(in.CDenom, amtIn), AmountOut: sdk.NewCoin(out.Denom, loan)})
+		}},
+		{"lend.borrow_alt", 6, func(w *World, r *Rng) *Event {
+			a := w.lendUser(r)
+			pool := w.Lend.Pools[r.Intn(len(w.Lend.Pools))]
+			as := pool.Assets[r.Intn(len(pool.Assets))]
+			bal := w.Bal(a.Addr, as.Denom)
+			if !bal.IsPositive() {
+				return nil
+			}
+			m, ok := w.App.LendKeeper.GetAssetToPair(w.Ctx(), as.ID, pool.ID)
+			if !ok || len(m.PairID) == 0 {
+				return nil
+			}
+			pair, ok := w.App.LendKeeper.GetLendPair(w.Ctx(), m.PairID[r.Intn(len(m.PairID))])
+			if !ok {
+				return nil
+			}
+			out := w.Lend.assetByID(pair.AssetOut)
+			if out == nil {
+				return nil
+			}
+			amtIn := posInt(bal.MulRaw(r.Range(1, 25)).QuoRaw(100))
+			loan := loanFor(w, r, pair, amtIn)
+			rs, _ := w.App.LendKeeper.GetAssetRatesParams(w.Ctx(), pair.AssetIn)
+			return w.TxEvent("lend.borrow_alt", a, &lendtypes.MsgBorrowAlternate{Lender: a.Bech(), AssetId: as.ID, PoolId: pool.ID, AmountIn: sdk.NewCoin(as.Denom, amtIn),
+				PairId: pair.Id, IsStableBorrow: rs.EnableStableBorrow && r.Chance(1, 3), AmountOut: sdk.NewCoin(out.Denom, loan), AppId: w.Lend.AppID})
+		}},
+		{"lend.deposit_borrow", 5, func(w *World, r *Rng) *Event {
+			a, b, ok := withBorrow(w, r)
+			if !ok {
+				return nil
+			}
+			l, ok := w.App.LendKeeper.GetLend(w.Ctx(), b.LendingID)
+			if !ok {
+				return nil
+			}
+			amt := l.AvailableToBorrow.MulRaw(r.Range(1, 60)).QuoRaw(100)
+			if r.Chance(1, 8) {
+				amt = l.AvailableToBorrow.AddRaw(r.Range(-1, 1))
+			}
+			return w.TxEvent("lend.deposit_borrow", a, &lendtypes.MsgDepositBorrow{Borrower: a.Bech(), BorrowId: b.ID, Amount: sdk.NewCoin(b.AmountIn.Denom, posInt(amt))})
+		}},
+		{"lend.draw", 9, func(w *World, r *Rng) *Event {
+			a, b, ok := withBorrow(w, r)
+			if !ok {
+				return nil
+			}
+			pair, ok := w.App.LendKeeper.GetLendPair(w.Ctx(), b.PairID)
+			if !ok {
+				return nil
+			}
+			out := w.Lend.assetByID(pair.AssetOut)
+			if out == nil {
+				return nil
+			}
+			amt := w.lendMinLoan(out)
+			pr := pair
+			pr.IsInterPool = false // the draw path checks the collateral asset's own LTV only
+			if max, ok := w.lendMaxLoan(pr, b.AmountIn.Amount); ok {
+				room := max.Sub(w.borrowDebt(b))
+				switch r.Intn(4) {
+				case 0:
+					amt = perturb(r, room)
+				case 1:
+					amt = room.MulRaw(r.Range(90, 99)).QuoRaw(100)
+				default:
+					amt = room.MulRaw(r.Range(1, 90)).QuoRaw(100)
+				}
+			}
+			return w.TxEvent("lend.draw", a, &lendtypes.MsgDraw{Borrower: a.Bech(), BorrowId: b.ID, Amount: sdk.NewCoin(b.AmountOut.Denom, posInt(amt))})
+		}},
+		{"lend.repay", 9, func(w *World, r *Rng) *Event {
+			a, b, ok := withBorrow(w, r)
+			if !ok {
+				return nil
+			}
+			var amt sdk.Int
+			switch r.Intn(7) {
+			case 0:
+				amt = b.InterestAccumulated.TruncateInt().AddRaw(r.Range(-1, 1)) // exactly the interest
+			case 1:
+				amt = w.borrowDebt(b) // exact total: delegates to close
+			case 2:
+				amt = w.borrowDebt(b).AddRaw(r.Range(-2, 2))
+			case 3:
+				amt = sdk.NewInt(r.Range(1, 50)) // within the reserve share of the interest
+			default:
+				amt = b.AmountOut.Amount.MulRaw(r.Range(1, 90)).QuoRaw(100)
+			}
+			return w.TxEvent("lend.repay", a, &lendtypes.MsgRepay{Borrower: a.Bech(), BorrowId: b.ID, Amount: sdk.NewCoin(b.AmountOut.Denom, posInt(amt))})
+		}},
+		{"lend.close_borrow", 3, func(w *World, r *Rng) *Event {
+			a, b, ok := withBorrow(w, r)
+			if !ok {
+				return nil
+			}
+			return w.TxEvent("lend.close_borrow", a, &lendtypes.MsgCloseBorrow{Borrower: a.Bech(), BorrowId: b.ID})
+		}},
+		{"lend.repay_withdraw", 2, func(w *World, r *Rng) *Event {
+			a, b, ok := withBorrow(w, r)
+			if !ok {
+				return nil
+			}
+			return w.TxEvent("lend.repay_withdraw", a, &lendtypes.MsgRepayWithdraw{Borrower: a.Bech(), BorrowId: b.ID})
+		}},
+		{"lend.calc", 10, func(w *World, r *Rng) *Event {
+			a := w.lendUser(r)
+			// half of the time repeat the previous caller: two triggers in one block when no block boundary fell in between
+			if last, ok := w.X["lend.lastcalc"].(int); ok && r.Bool() && last < len(w.Actors) {
+				a = w.Actors[last]
+			}
+			if len(w.userLends(a)) == 0 {
+				return nil
+			}
+			w.X["lend.lastcalc"] = a.Idx
+			return w.TxEvent("lend.calc", a, &lendtypes.MsgCalculateInterestAndRewards{Borrower: a.Bech()})
+		}},
+		{"lend.fund_module", 1, func(w *World, r *Rng) *Event {
+			a := w.Actors[w.Lend.Funder]
+			pool := w.Lend.Pools[r.Intn(len(w.Lend.Pools))]
+			as := pool.Assets[r.Intn(len(pool.Assets))]
+			return w.TxEvent("lend.fund_module", a, &lendtypes.MsgFundModuleAccounts{PoolId: pool.ID, AssetId: as.ID, Lender: a.Bech(), Amount: sdk.NewCoin(as.Denom, w.lendTokensForUSD(as, r.Range(1, 2000)))})
+		}},
+		{"lend.fund_reserve", 1, func(w *World, r *Rng) *Event {
+			a := w.Actors[w.Lend.Funder]
+			as := w.Lend.Assets[r.Intn(len(w.Lend.Assets))]
+			return w.TxEvent("lend.fund_reserve", a, &lendtypes.MsgFundReserveAccounts{AssetId: as.ID, Lender: a.Bech(), Amount: sdk.NewCoin(as.Denom, w.lendTokensForUSD(as, r.Range(1, 2000)))})
+		}},
+		{"lend.steer", 10, lendSteer},
+		{"liq.keeper_borrow", 7, func(w *World, r *Rng) *Event {
+			bs := w.App.LendKeeper.GetAllBorrow(w.Ctx())
+			if len(bs) == 0 {
+				return nil
+			}
+			a := w.Actors[w.Lend.Keeper]
+			id := bs[r.Intn(len(bs))].ID
+			// prefer a borrow the tracker currently sees as clearly unsafe, half of the time
+			if t, ok := w.X["lend.liq"].(*lendLiqTracker); ok && r.Chance(3, 4) {
+				if ids := t.unsafeIDs(); len(ids) > 0 {
+					id = ids[r.Intn(len(ids))]
+				}
+			}
+			if r.Chance(1, 12) {
+				id = uint64(r.Range(0, 60))
+			}
+			return w.TxEvent("liq.keeper_borrow", a, &liqtypes.MsgLiquidateInternalKeeperRequest{From: a.Bech(), LiqType: 1, Id: id})
+		}},
+		{"bid.dutch", 14, func(w *World, r *Rng) *Event {
+			as := w.App.NewaucKeeper.GetAuctions(w.Ctx())
+			var dutch []auctionsV2types.Auction
+			for _, a := range as {
+				if a.AuctionType {
+					dutch = append(dutch, a)
+				}
+			}
+			if len(dutch) == 0 {
+				return nil
+			}
+			au := dutch[r.Intn(len(dutch))]
+			b := w.Actors[w.Lend.Bidders[r.Intn(len(w.Lend.Bidders))]]
+			var amt sdk.Int
+			switch r.Intn(6) {
+			case 0:
+				amt = sdk.NewInt(r.Range(1, 1000))
+			case 1, 2:
+				amt = au.DebtToken.Amount
+			case 3:
+				amt = au.DebtToken.Amount.MulRaw(r.Range(101, 300)).QuoRaw(100)
+			default:
+				amt = au.DebtToken.Amount.MulRaw(r.Range(20, 99)).QuoRaw(100)
+			}
+			return w.TxEvent("bid.dutch", b, &auctionsV2types.MsgPlaceMarketBidRequest{AuctionId: au.AuctionId, Bidder: b.Bech(), Amount: sdk.NewCoin(au.DebtToken.Denom, posInt(amt))})
+		}},
+	}
+}
+
+// lendSteer is the utilisation-steering actor: it borrows / draws / repays one (pool, asset) so that the pool's utilisation lands
+// at 0, just below / at / just above the configured optimum, or at a PRNG-chosen value.
+func lendSteer(w *World, r *Rng) *Event {
+	p := w.Lend
+	a := w.Actors[p.Steer]
+	ctx := w.Ctx()
+	lk := w.App.LendKeeper
+	pool := p.Pools[r.Intn(len(p.Pools))]
+	// collateral: the steer actor's position in the pool's second bridge asset
+	var coll *lendtypes.LendAsset
+	for _, l := range w.userLends(a) {
+		if l.PoolID == pool.ID && l.AssetID == pool.T2.ID {
+			x := l
+			coll = &x
+		}
+	}
+	if coll == nil {
+		return nil
+	}
+	// target asset: any other asset of the pool
+	var cands []*LAsset
+	for _, x := range pool.Assets {
+		if x.ID != pool.T2.ID {
+			cands = append(cands, x)
+		}
+	}
+	tgt := cands[r.Intn(len(cands))]
+	var pair lendtypes.Extended_Pair
+	found := false
+	for _, pr := range w.pairsFor(*coll) {
+		if pr.AssetOut == tgt.ID && !pr.IsInterPool && pr.AssetOutPoolID == pool.ID {
+			pair, found = pr, true
+		}
+	}
+	if !found {
+		return nil
+	}
+	st, ok := lk.GetAssetStatsByPoolIDAndAssetID(ctx, pool.ID, tgt.ID)
+	rs, ok2 := lk.GetAssetRatesParams(ctx, tgt.ID)
+	if !ok || !ok2 {
+		return nil
+	}
+	B := st.TotalBorrowed.Add(st.TotalStableBorrowed)
+	M := w.ModBal(pool.Module, tgt.Denom)
+	tot := B.Add(M)
+	if !tot.IsPositive() {
+		return nil
+	}
+	var own *lendtypes.BorrowAsset
+	for _, b := range w.userBorrows(a) {
+		if b.PairID == pair.Id && !b.IsLiquidated {
+			x := b
+			own = &x
+		}
+	}
+	// target utilisation in 1e-9 units
+	const scale = 1_000_000_000
+	uopt := rs.UOptimal.MulInt64(scale).TruncateInt64()
+	var u int64
+	switch r.Intn(8) {
+	case 0:
+		u = 0
+	case 1:
+		u = uopt
+	case 2:
+		u = uopt - []int64{1, 1000, 1_000_000, 10_000_000}[r.Intn(4)]
+	case 3:
+		u = uopt + []int64{1, 1000, 1_000_000, 10_000_000}[r.Intn(4)]
+	case 4:
+		u = r.Range(uopt, 990_000_000)
+	default:
+		u = r.Range(1, uopt)
+	}
+	want := tot.MulRaw(u).QuoRaw(scale)
+	if r.Chance(1, 3) {
+		want = want.AddRaw(r.Range(-1, 1)) // one unit around the target
+	}
+	d := want.Sub(B)
+	switch {
+	case u == 0 && own != nil:
+		return w.TxEvent("lend.steer", a, &lendtypes.MsgCloseBorrow{Borrower: a.Bech(), BorrowId: own.ID})
+	case d.IsPositive() && own == nil:
+		amtIn := coll.AvailableToBorrow.MulRaw(r.Range(60, 100)).QuoRaw(100)
+		if !amtIn.IsPositive() {
+			return nil
+		}
+		if d.LT(w.lendMinLoan(tgt)) {
+			d = w.lendMinLoan(tgt)
+		}
+		return w.TxEvent("lend.steer", a, &lendtypes.MsgBorrow{Borrower: a.Bech(), LendId: coll.ID, PairId: pair.Id, IsStableBorrow: false,
+			AmountIn: sdk.NewCoin(pool.T2.CDenom, amtIn), AmountOut: sdk.NewCoin(tgt.Denom, d)})
+	case d.IsPositive():
+		return w.TxEvent("lend.steer", a, &lendtypes.MsgDraw{Borrower: a.Bech(), BorrowId: own.ID, Amount: sdk.NewCoin(tgt.Denom, d)})
+	case d.IsNegative() && own != nil:
+		pay := d.Neg()
+		// a repayment first covers the accrued interest; add it so that the principal moves by the wanted amount
+		pay = pay.Add(own.InterestAccumulated.TruncateInt())
+		if pay.GTE(w.borrowDebt(*own)) {
+			return w.TxEvent("lend.steer", a, &lendtypes.MsgCloseBorrow{Borrower: a.Bech(), BorrowId: own.ID})
+		}
+		return w.TxEvent("lend.steer", a, &lendtypes.MsgRepay{Borrower: a.Bech(), BorrowId: own.ID, Amount: sdk.NewCoin(tgt.Denom, posInt(pay))})
+	}
+	return nil
+}
+
+func init() {
+	scenarios["lend"] = &Scenario{
+		Name: "lend", NActors: lendActors, Draw: drawLendConfig,
+		Setup: func(w *World) { setupLend(w); w.warmOracle(); seedLend(w) },
+		Gens:  func(w *World) []OpGen { return lendGens() },
+		PBlock: 230,
+	}
+}
